@@ -164,7 +164,7 @@ impl TopicActor {
 //@ ensures[C11] !old(self)@.deleted ==> final(self)@ == (TopicView { subs: Map::empty(), deleted: true, ..old(self)@ })
 //@end
 
-//@fn src/topics/topic_actor.rs TopicActor::publish_messages tags=C08,C09 name=publish_ids n3=1 tail=(message_ids,~messages)
+//@fn src/topics/topic_actor.rs TopicActor::publish_messages tags=C08,C09 name=TopicActor::publish_ids n3=1 tail=(message_ids,~messages)
 //@ region /let mut message_ids = Vec::with_capacity\(messages\.len\(\)\);/ /^\s*n3_acc \};\s*$/ as fn publish_ids(&mut self, messages: Vec<TopicMessage>, publish_time: SystemTime) -> (r: (Vec<MessageId>, Vec<Arc<TopicMessage>>))
 //@ # A-ARITH: fewer than 2^32 - 1 messages per topic
 //@ requires old(self)@.next + messages@.len() <= u32::MAX
